@@ -459,7 +459,9 @@ func Run(c *core.Ctx, replay string) (*core.Result, error) {
 				} else {
 					f.Goname = fmt.Sprintf("F%c", 'a'+j)
 					if f.Hasjson && f.Tagname == "n" {
-						f.Tagname = fmt.Sprintf("n%d", j) // keys stay distinct: the duplicate-key rule of encoding/json is out of scope
+						// keys stay distinct (the duplicate-key rule of encoding/json is out of scope) and take unusual shapes:
+						// a dash, a leading digit, upper case, a space, non-ASCII letters
+						f.Tagname = fmt.Sprintf([]string{"n%d", "n%d", "my-key%d", "%dth", "Key_%d", "with space %d", "clé%d"}[rng.Intn(7)], j)
 					}
 				}
 				fs = append(fs, f)
